@@ -281,11 +281,15 @@ func (tb *LTable) RawGet(key LValue) LValue {
 
 // RawGetInt returns an LValue at position `key` without __index metamethod.
 func (tb *LTable) RawGetInt(key int) LValue {
+	if key < 1 || key >= MaxArrayIndex {
+		// RawSetInt stores these keys in the hash part
+		return tb.RawGetH(LNumber(key))
+	}
 	if tb.array == nil {
 		return LNil
 	}
 	index := int(key) - 1
-	if index >= len(tb.array) || index < 0 {
+	if index >= len(tb.array) {
 		return LNil
 	}
 	return tb.array[index]
